@@ -43,7 +43,7 @@ def run(prop, family, t, tier, rule_extra=''):
         parts = begin.split(' ', 2)
         if len(parts) == 3 and parts[1].isdigit():
             dead[int(parts[1])] = (parts[2], tail[-600:])
-    if len(seen | set(dead)) != nprog:
+    if len(seen | set(dead)) != nprog and not any(b.startswith('ABORTED') for b, _ in deaths):
         vlib.tool_error(f'analysis records incomplete: {len(seen)} + {len(dead)} dead of {nprog}')
     execs = sum(r['Execs'] for r in truth.values())
     branches = sum(r['Branches'] for r in truth.values())
